@@ -566,8 +566,9 @@ fn conforming_ack(rng: &mut Rng) -> (Vec<u8>, u16) {
 }
 
 /// A conforming event packet with `n` events; `single` uses the event_size = 0 form for the last one.
-fn conforming_event(rng: &mut Rng, n: usize, single_last: bool) -> Vec<u8> {
+fn conforming_event(rng: &mut Rng, n: usize, single_last: bool) -> (Vec<u8>, String) {
     let mut scd = vec![];
+    let mut toks = vec![];
     for i in 0..n {
         let dl = match rng.below(4) {
             0 => 0,
@@ -575,14 +576,27 @@ fn conforming_event(rng: &mut Rng, n: usize, single_last: bool) -> Vec<u8> {
             _ => rng.below(40) as usize,
         };
         let size: u16 = if single_last && i + 1 == n { 0 } else { (12 + dl) as u16 };
+        let id = rng.below(65536) as u16;
+        let ts = rng.interesting_u64();
+        let data = rng.bytes(dl);
         scd.extend(size.to_le_bytes());
-        scd.extend((rng.below(65536) as u16).to_le_bytes());
-        scd.extend(rng.interesting_u64().to_le_bytes());
-        scd.extend(rng.bytes(dl));
+        scd.extend(id.to_le_bytes());
+        scd.extend(ts.to_le_bytes());
+        scd.extend(&data);
+        toks.push(format!("{id}:{ts}:{}", hex(&data)));
     }
-    let mut b = header(EVENT_MAGIC, rng.below(65536) as u16, 0x0c00, scd.len() as u16, rng.below(65536) as u16);
+    let flag = rng.below(65536) as u16;
+    let req = rng.below(65536) as u16;
+    let mut b = header(EVENT_MAGIC, flag, 0x0c00, scd.len() as u16, req);
     b.extend(scd);
-    b
+    // request for the reference encoder of Spec/GenCPAck.lean
+    let line = format!(
+        "c08 {} enc-event {flag} {req} {} {}",
+        profile(),
+        (single_last && n > 0) as u8,
+        toks.join(" ")
+    );
+    (b, line)
 }
 
 fn mutate(rng: &mut Rng, b: &[u8]) -> Vec<u8> {
@@ -722,6 +736,18 @@ fn main() {
     for i in 0..rounds {
         let (b, _) = conforming_ack(&mut rng);
         do_case(&mut rep, &Req::AckHex(b.clone()), "ack-conforming");
+        if i % 4 == 0 {
+            rep.count("encoder-check/ack");
+            let enc_line = format!(
+                "c08 {} enc-ack {} {} {} {}",
+                profile(),
+                u16at(&b, 4).unwrap(),
+                u16at(&b, 6).unwrap(),
+                u16at(&b, 10).unwrap(),
+                hex(&b[12..])
+            );
+            rep.expect(enc_line, hex(&b));
+        }
         let mut m = b.clone();
         for _ in 0..1 + rng.below(3) {
             m = mutate(&mut rng, &m);
@@ -742,8 +768,13 @@ fn main() {
             _ => 1 + rng.below(12) as usize,
         };
         let single_last = rng.chance(1, 3);
-        let b = conforming_event(&mut rng, n, single_last);
+        let (b, enc_line) = conforming_event(&mut rng, n, single_last);
         do_case(&mut rep, &Req::Event(b.clone()), "event-conforming");
+        if i % 4 == 0 {
+            // the reference encoder must produce the very bytes the generator built
+            rep.count("encoder-check/event");
+            rep.expect(enc_line, hex(&b));
+        }
         let mut m = b.clone();
         for _ in 0..1 + rng.below(3) {
             m = mutate(&mut rng, &m);
